@@ -1,50 +1,133 @@
-// Interface-only stand-in for boost/sml.hpp (the sml submodule is empty in this checkout): just enough of the DSL for
-// `make_transition_table( *state<S> + event<E> [guard] / action = state<T>, state<S> + on_entry<_> / hook, ... )`,
-// sm<T>{controller}, process_event, is(state<S>).  It type-checks what a generated unit REFERENCES: every state type
-// must be declared, every event type complete, every guard callable as guard(controller&) -> bool or guard() -> bool,
-// every action callable as action(const Event&, controller&) (which instantiates the generated functor body and so
-// resolves controller.<Action>(<Event> const&)), every hook callable as hook(controller&).  No behaviour.
+// Functional stand-in for boost/sml.hpp (the sml submodule is empty in this checkout), for the subset of the DSL that the
+// generated state machine uses:
+//   make_transition_table( *state<S> + event<E> [guard] / action = state<T>,  state<S> + event<E> [guard] / action,
+//                          state<S> + on_entry<_> / hook,  state<S> + on_exit<_> / hook, ... )
+//   sm<Table>{controller},  process_event(e),  is(state<S>)
+// with the semantics STATED in the verification's Model/SmlTT.v (this header is the harness's executable copy of that
+// statement, it is NOT boost::sml):
+//   * the state marked `*` is initial; constructing the machine runs its on_entry hooks;
+//   * process_event(e) tries the transition rows in table order; a row applies when its source is the current state and its
+//     event type is e's; its guard is called, the first row whose guard holds fires, no further row is looked at;
+//   * `= state<T>` is an external transition (also for T == source): on_exit hooks of the source, action, state := T,
+//     on_entry hooks of T; a row without target is internal: the action alone; nothing happens when no row fires.
+// It also type-checks what the interface-only stub did: states declared, event types complete, guards callable as
+// g(controller&) or g(), actions as a(const Event&, controller&) or a(), hooks as h(controller&).
 #pragma once
+#include <functional>
+#include <tuple>
 #include <type_traits>
 #include <utility>
+#include <vector>
 namespace boost { namespace sml {
 struct _ {};
-struct any_ref { template <class T> operator T&() const; };
-template <class S> struct state_t { constexpr state_t operator*() const { return {}; } };
+template <class T> struct tid_holder { static constexpr char id = 0; };
+template <class T> constexpr char tid_holder<T>::id;
+template <class T> const void* tid() { return &tid_holder<T>::id; }
+
+struct row_rt {
+  int kind;                 // 0 transition, 1 on_entry hook, 2 on_exit hook
+  bool init;
+  const void* src; const void* ev; const void* dst;   // dst == nullptr : internal
+  std::function<bool()> guard;
+  std::function<void(const void*)> action;
+};
+
+template <class G, class C> auto call_guard(G& g, C& c, int) -> decltype(bool(g(c))) { return g(c); }
+template <class G, class C> auto call_guard(G& g, C&, long) -> decltype(bool(g())) { return g(); }
+template <class E, class A, class C> auto call_action(A& a, const E& e, C& c, int) -> decltype(a(e, c), void()) { a(e, c); }
+template <class E, class A, class C> auto call_action(A& a, const E&, C&, long) -> decltype(a(), void()) { a(); }
+
+struct no_guard { bool operator()() const { return true; } };
+struct no_action { void operator()() const {} };
+struct internal_t {};
+
+template <class S> struct state_t;
+template <class S> struct init_state_t {};
+template <class S> struct state_t { constexpr init_state_t<S> operator*() const { return {}; } };
 template <class S> constexpr state_t<S> state{};
-template <class G> auto call_guard(G& g, int) -> decltype(bool(g(any_ref{}))) { return false; }
-template <class G> auto call_guard(G& g, long) -> decltype(bool(g())) { return false; }
-template <class E, class A> auto call_action(A& a, int) -> decltype(a(std::declval<const E&>(), any_ref{}), void()) {
-  if (false) a(*static_cast<const E*>(nullptr), any_ref{});
-}
-template <class E, class A> auto call_action(A& a, long) -> decltype(a(), void()) {}
-template <class A> auto call_hook(A& a) -> decltype(a(any_ref{}), void()) { if (false) a(any_ref{}); }
-template <class E> struct ev_act { };
-template <class E> struct guarded_event {
-  template <class A> ev_act<E> operator/(A a) const { call_action<E>(a, 0); return {}; }
+
+template <class E, class G, class A> struct ev_g_a { G g; A a; };
+template <class E, class G> struct ev_g {
+  G g;
+  template <class A> ev_g_a<E, G, A> operator/(A a) const { return {g, a}; }
 };
 template <class E> struct event_t {
   static_assert(sizeof(E) > 0, "event type must be complete");
-  template <class G> guarded_event<E> operator[](G g) const { call_guard(g, 0); return {}; }
-  template <class A> ev_act<E> operator/(A a) const { call_action<E>(a, 0); return {}; }
+  template <class G> ev_g<E, G> operator[](G g) const { return {g}; }
+  template <class A> ev_g_a<E, no_guard, A> operator/(A a) const { return {no_guard{}, a}; }
 };
 template <class E> constexpr event_t<E> event{};
-struct hook_act {};
-template <class T> struct on_entry_t { template <class A> hook_act operator/(A a) const { call_hook(a); return {}; } };
-template <class T> struct on_exit_t { template <class A> hook_act operator/(A a) const { call_hook(a); return {}; } };
+
+template <class S, bool Init, class E, class G, class A, class T> struct trans {
+  G g; A a;
+  template <class T2> trans<S, Init, E, G, A, T2> operator=(state_t<T2>) const { return {g, a}; }
+  template <class C> void erase(C& c, std::vector<row_rt>& rows) const {
+    G g2 = g; A a2 = a; C* pc = &c;
+    row_rt r;
+    r.kind = 0; r.init = Init; r.src = tid<S>(); r.ev = tid<E>();
+    r.dst = std::is_same<T, internal_t>::value ? nullptr : tid<T>();
+    r.guard = [g2, pc]() mutable { return call_guard(g2, *pc, 0); };
+    r.action = [a2, pc](const void* e) mutable { call_action<E>(a2, *static_cast<const E*>(e), *pc, 0); };
+    rows.push_back(r);
+  }
+};
+template <class S, class E, class G, class A> trans<S, false, E, G, A, internal_t> operator+(state_t<S>, ev_g_a<E, G, A> x) { return {x.g, x.a}; }
+template <class S, class E, class G, class A> trans<S, true, E, G, A, internal_t> operator+(init_state_t<S>, ev_g_a<E, G, A> x) { return {x.g, x.a}; }
+template <class S, class E, class G> trans<S, false, E, G, no_action, internal_t> operator+(state_t<S>, ev_g<E, G> x) { return {x.g, no_action{}}; }
+template <class S, class E, class G> trans<S, true, E, G, no_action, internal_t> operator+(init_state_t<S>, ev_g<E, G> x) { return {x.g, no_action{}}; }
+template <class S, class E> trans<S, false, E, no_guard, no_action, internal_t> operator+(state_t<S>, event_t<E>) { return {no_guard{}, no_action{}}; }
+template <class S, class E> trans<S, true, E, no_guard, no_action, internal_t> operator+(init_state_t<S>, event_t<E>) { return {no_guard{}, no_action{}}; }
+
+template <int Kind, class A> struct hook_act { A a; };
+template <class T> struct on_entry_t { template <class A> hook_act<1, A> operator/(A a) const { return {a}; } };
+template <class T> struct on_exit_t { template <class A> hook_act<2, A> operator/(A a) const { return {a}; } };
 template <class T> constexpr on_entry_t<T> on_entry{};
 template <class T> constexpr on_exit_t<T> on_exit{};
-template <class S> struct transition { template <class T> transition operator=(state_t<T>) const { return {}; } };
-template <class S, class E> transition<S> operator+(state_t<S>, ev_act<E>) { return {}; }
-template <class S, class E> transition<S> operator+(state_t<S>, event_t<E>) { return {}; }
-template <class S, class E> transition<S> operator+(state_t<S>, guarded_event<E>) { return {}; }
-template <class S> transition<S> operator+(state_t<S>, hook_act) { return {}; }
-template <class... Ts> struct table {};
-template <class... Ts> table<Ts...> make_transition_table(Ts...) { return {}; }
+template <class S, int Kind, class A> struct hook_row {
+  A a;
+  template <class C> void erase(C& c, std::vector<row_rt>& rows) const {
+    A a2 = a; C* pc = &c;
+    row_rt r;
+    r.kind = Kind; r.init = false; r.src = tid<S>(); r.ev = nullptr; r.dst = nullptr;
+    r.guard = []() { return true; };
+    r.action = [a2, pc](const void*) mutable { a2(*pc); };
+    rows.push_back(r);
+  }
+};
+template <class S, int Kind, class A> hook_row<S, Kind, A> operator+(state_t<S>, hook_act<Kind, A> h) { return {h.a}; }
+
+template <class... Ts> struct table { std::tuple<Ts...> rows; };
+template <class... Ts> table<Ts...> make_transition_table(Ts... ts) { return {std::tuple<Ts...>(ts...)}; }
+
 template <class SM> class sm {
  public:
-  template <class C> explicit sm(C& c) { (void)c; (void)sizeof(decltype(std::declval<SM>()())); }
-  template <class E> void process_event(const E&) {}
-  template <class S> bool is(state_t<S>) const { return false; }
+  template <class C> explicit sm(C& c) : cur_(nullptr) {
+    auto t = SM{}();
+    erase_all(c, t.rows, std::make_index_sequence<std::tuple_size<decltype(t.rows)>::value>{});
+    for (auto& r : rows_) if (r.kind == 0 && r.init) { cur_ = r.src; break; }
+    hooks(1, cur_);
+  }
+  template <class E> bool process_event(const E& e) {
+    for (auto& r : rows_) {
+      if (r.kind != 0 || r.src != cur_ || r.ev != tid<E>()) continue;
+      if (!r.guard()) continue;
+      if (r.dst) { hooks(2, cur_); r.action(&e); cur_ = r.dst; hooks(1, cur_); }
+      else r.action(&e);
+      return true;
+    }
+    return false;
+  }
+  template <class S> bool is(state_t<S>) const { return cur_ == tid<S>(); }
+
+ private:
+  template <class C, class Tuple, std::size_t... I> void erase_all(C& c, const Tuple& t, std::index_sequence<I...>) {
+    int dummy[] = {0, (std::get<I>(t).erase(c, rows_), 0)...};
+    (void)dummy;
+  }
+  void hooks(int kind, const void* s) {
+    for (auto& r : rows_) if (r.kind == kind && r.src == s) r.action(nullptr);
+  }
+  std::vector<row_rt> rows_;
+  const void* cur_;
 };
 }}
